@@ -338,6 +338,22 @@ def F23_repeated_shown_card():
         return f"show_or_muck_hole_cards('AhAh') accepted without a warning; {dup} now in two places"
 
 
+def F24_lone_survivor_killed():
+    """C12/C02 (fixed in 69a56fd): heads-up, both all-in pre-flop, one mucks; the other was killed."""
+    from pokerkit import Automation, Mode, NoLimitTexasHoldem
+    autos = (Automation.ANTE_POSTING, Automation.BET_COLLECTION, Automation.BLIND_OR_STRADDLE_POSTING,
+             Automation.CARD_BURNING, Automation.HOLE_DEALING, Automation.BOARD_DEALING,
+             Automation.HAND_KILLING, Automation.CHIPS_PUSHING, Automation.CHIPS_PULLING,
+             Automation.RUNOUT_COUNT_SELECTION)
+    s = NoLimitTexasHoldem.create_state(autos, False, 0, (1, 2), 2, (100, 100), 2, mode=Mode.CASH_GAME)
+    s.complete_bet_or_raise_to(100)
+    s.check_or_call()
+    s.show_or_muck_hole_cards(False)
+    s.show_or_muck_hole_cards()
+    if list(s.stacks) != [200, 0]:
+        return f'the player left alone was killed: statuses {s.statuses}, stacks {s.stacks}, payoffs {s.payoffs}'
+
+
 DEMOS = {k: v for k, v in globals().items() if k.startswith('F') and callable(v) and k[1:2].isdigit()}
 
 if __name__ == '__main__':
